@@ -29,7 +29,7 @@ func init() {
 	})
 	register(&Rule{
 		ID: "C16.narrowing-exact", Prop: "C16", Also: []string{"C18", "C02"}, Floor: 8, Controls: 1,
-		Doc: "a value obtained by narrowing a big.Float (Int64 / Uint64 / Float64 / Float32) is used only where the accuracy returned by the same call was compared with big.Exact on the way (an encoder that writes, or a bridge that stores, an inexact narrowing changes the number silently); a narrowing whose accuracy is discarded must not reach an encoder or reflect setter",
+		Doc: "a value obtained by narrowing a big.Float (Int64 / Uint64 / Float64 / Float32) is used only where the accuracy returned by the same call was compared with big.Exact on the way (an encoder that writes, or a bridge that stores, an inexact narrowing changes the number silently); a narrowing whose accuracy is discarded must not reach an encoder, a reflect setter or a number constructor",
 		Run: runNarrowingExact,
 	})
 	register(&Rule{
@@ -211,6 +211,10 @@ func isEncoderSink(f *types.Func) bool {
 	if lossySinks[funcKey(f)] {
 		return true
 	}
+	switch funcKey(f) {
+	case "cty.NumberIntVal", "cty.NumberUIntVal", "cty.NumberFloatVal":
+		return true // a number value built from the narrowed number
+	}
 	if f.Pkg() != nil && strings.Contains(f.Pkg().Path(), "vmihailenco/msgpack") && strings.HasPrefix(f.Name(), "Encode") {
 		return true
 	}
@@ -283,7 +287,21 @@ func runNarrowingExact(rr *RuleRun) {
 					// discarded accuracy: only a problem when the value reaches an encoder / setter
 					bad := false
 					for _, u := range uses {
-						if call, ok := c.Parent(u).(*ast.CallExpr); ok && isEncoderSink(callee(info, call)) {
+						// the use may be wrapped in arithmetic or a conversion: climb through expressions to the enclosing call
+						var call *ast.CallExpr
+						for p := c.Parent(u); p != nil; p = c.Parent(p) {
+							if ce, ok := p.(*ast.CallExpr); ok {
+								if f := callee(info, ce); f != nil {
+									call = ce
+									break
+								}
+								continue // a type conversion such as int64(x)
+							}
+							if _, ok := p.(ast.Expr); !ok {
+								break
+							}
+						}
+						if call != nil && isEncoderSink(callee(info, call)) {
 							bad = true
 							rr.Violation(key, u.Pos(), fmt.Sprintf("%s is the result of %s() whose accuracy is discarded, and it is written by %s: an inexact narrowing would change the number silently", s.x.Name(), s.meth, exprStr(call.Fun)))
 						}
